@@ -2,7 +2,7 @@
 import ast
 
 from ..engine import rule, Ctx
-from ..core import UNKNOWN, dotted, kwarg, body_nodes, inline, stmt_key, canon, walk_no_nested, names_in
+from ..core import UNKNOWN, dotted, kwarg, body_nodes, inline, stmt_key, canon, walk_no_nested, names_in  # noqa
 from . import common
 from .c03 import _own
 
@@ -210,6 +210,10 @@ def c08_c(ctx: Ctx):
         if isinstance(n, ast.Assign) and len(n.targets) == 1 and isinstance(n.targets[0], ast.Name):
             defs[n.targets[0].id] = n
 
+    # roles from the returned pair: (ids to add, ids to remove)
+    rts = [r for r in body_nodes(m) if isinstance(r, ast.Return) and isinstance(r.value, ast.Tuple) and len(r.value.elts) == 2 and all(isinstance(e, ast.Name) for e in r.value.elts)]
+    TA, TR = (rts[0].value.elts[0].id, rts[0].value.elts[1].id) if rts else ("to_add", "to_remove")
+
     def kind(e):
         v = inline(e, env)
         t = canon(v)
@@ -246,8 +250,8 @@ def c08_c(ctx: Ctx):
         else:
             out.append(ctx.inc(R, m, d, f"removal loop iterates {canon(src) if src is not None else '?'} ({dd})"))
         facts = common.facts_at(ctx, m, d, "n")
-        gating = [f for f in facts if f[1] and ("to_add" in f[0] or "to_remove" in f[0])]
-        bad = [f for f in gating if "to_remove" not in f[0]]
+        gating = [f for f in facts if f[1] and (TA in f[0] or TR in f[0])]
+        bad = [f for f in gating if TR not in f[0]]
         if bad:
             out.append(ctx.viol(R, m, d, f"removal of stale ids happens only when {bad[0][0]} holds: with removals only (nothing to add) stale ids stay in the cache and are written to the file"))
         else:
@@ -271,26 +275,28 @@ def c08_c(ctx: Ctx):
                 out.append(ctx.viol(R, f, n, "added entries are read without validation: a damaged state point file poisons the persistent cache"))
         else:
             out.append(ctx.inc(R, f, n, f"added value is {stmt_key(v, 40)}"))
-    if "to_add" in defs:
-        dd = diff_dir(defs["to_add"].value)
+    if TA in defs:
+        dd = diff_dir(defs[TA].value)
         if dd == ("listed", "cached"):
-            out.append(ctx.ok(R, m, defs["to_add"], "to_add = listed - cached"))
+            out.append(ctx.ok(R, m, defs[TA], "to_add = listed - cached"))
         else:
-            out.append(ctx.viol(R, m, defs["to_add"], f"to_add is {canon(defs['to_add'].value)}: not `ids listed in the workspace minus cached ids`"))
+            out.append(ctx.viol(R, m, defs[TA], f"to_add is {canon(defs[TA].value)}: not `ids listed in the workspace minus cached ids`"))
         maps = [c for c in body_nodes(m) if isinstance(c, ast.Call) and isinstance(c.func, ast.Attribute) and c.func.attr in ("map", "imap", "starmap")]
         for c in maps:
             facts = common.facts_at(ctx, m, c, "n")
-            bad = [f for f in facts if f[1] and "to_remove" in f[0] and "to_add" not in f[0]]
+            bad = [f for f in facts if f[1] and TR in f[0] and TA not in f[0]]
             if bad:
                 out.append(ctx.viol(R, m, c, f"new ids are added only when {bad[0][0]} holds"))
             else:
                 out.append(ctx.ok(R, m, c, "additions are not conditional on there being something to remove"))
-    if "to_remove" in defs:
-        dd = diff_dir(defs["to_remove"].value)
+    if TR in defs:
+        dd = diff_dir(defs[TR].value)
         if dd == ("cached", "listed"):
-            out.append(ctx.ok(R, m, defs["to_remove"], "to_remove = cached - listed"))
+            out.append(ctx.ok(R, m, defs[TR], "to_remove = cached - listed"))
         else:
-            out.append(ctx.viol(R, m, defs["to_remove"], f"to_remove is {canon(defs['to_remove'].value)}: not `cached ids minus ids listed in the workspace`"))
+            out.append(ctx.viol(R, m, defs[TR], f"to_remove is {canon(defs[TR].value)}: not `cached ids minus ids listed in the workspace`"))
+    if TA not in defs or TR not in defs:
+        out.append(ctx.inc(R, m, m.node, "the sets of ids to add / to remove (the returned pair) were not found"))
     return out
 
 
@@ -314,6 +320,17 @@ def c08_d(ctx: Ctx):
             out.append(ctx.ok(R, rc, upd[0], "the file content is merged into the in-memory cache with update(); the returned snapshot stays a separate object"))
         else:
             out.append(ctx.inc(R, rc, rc.node, "_read_cache does not merge the file content with update()"))
+    st = ctx.fn("signac.job:Job.statepoint.setter")
+    scfg = ctx.cfg(st)
+    regs = [n for n in scfg.stmt_nodes() if n.kind == "stmt" and any(isinstance(c, ast.Call) and isinstance(c.func, ast.Attribute) and c.func.attr == "_register" for c in walk_no_nested(n.ast))]
+    resets = {n.id for n in scfg.stmt_nodes() if n.kind == "stmt" and any(isinstance(c, ast.Call) and isinstance(c.func, ast.Attribute) and c.func.attr == "reset" for c in walk_no_nested(n.ast))}
+    for rg in regs:
+        w = scfg.must_pass_before(rg.id, resets, kinds="n")
+        if w is None and resets:
+            out.append(ctx.ok(R, st, rg.ast, "the new state point is registered under self.id only after the re-key changed the id"))
+        else:
+            out.append(ctx.viol(R, st, rg.ast, "the new state point is registered before the re-key: self.id is still the old id, so the cache maps the old id to the new state point - an entry that is "
+                                "not keyed by its content hash and is wrong whenever the re-key is refused or the old state point is re-created"))
     sp = ctx.fn("signac.project:_split_and_print_progress")
     ys = [n for n in body_nodes(sp) if isinstance(n, ast.Yield) and n.value is not None]
     open_tail = [y for y in ys if isinstance(y.value, ast.Subscript) and isinstance(y.value.slice, ast.Slice) and y.value.slice.upper is None]
